@@ -20,11 +20,14 @@ def fragTopA (n : Text.WNet) (r : Text.WDef) : Bool := fragTop n r && asgsOK n r
 
 def fragAnyA (n : Text.WNet) (r : Text.WDef) : Bool := r.lib == "hdi_primitives" || fragTopA n r
 
+/-- the module parameters a written definition comes back with: the written ones, a repeated key keeps its first value -/
+def paramsOf (W : Text.WDef) : Params := mergeParams [] ((astParams W).getD [])
+
 def DoneWA (n : Text.WNet) (defs : List Def) (Ws : List Text.WDef) : Prop :=
-  ∀ W ∈ Ws, ∃ D ∈ defs, D.name = W.name ∧ viewD D = viewTA n W ∧ D.lib = some "work"
+  ∀ W ∈ Ws, ∃ D ∈ defs, D.name = W.name ∧ viewD D = viewTA n W ∧ D.lib = some "work" ∧ D.params = paramsOf W
 
 theorem astOfA_name (n : Text.WNet) (r : Text.WDef) (m : WModPA) (hm : astOfA n r = some m) :
-    m.toA.base.name = r.name ∧ m.toA.base.attrs = r.attrs.getD [] := by
+    m.toA.base.name = r.name ∧ m.toA.base.attrs = r.attrs.getD [] ∧ astParams r = some m.params := by
   unfold astOfA at hm
   cases h1 : r.ports.mapM (astPort r) with
   | none => simp [h1] at hm
@@ -34,7 +37,10 @@ theorem astOfA_name (n : Text.WNet) (r : Text.WDef) (m : WModPA) (hm : astOfA n 
     | some insts =>
       cases h3 : (asgI n r).mapM (astAsg n r) with
       | none => simp [h1, h2, h3] at hm
-      | some as => simp only [h1, h2, h3, Option.some.injEq] at hm; rw [← hm]; exact ⟨rfl, rfl⟩
+      | some as =>
+        cases h4 : astParams r with
+        | none => simp [h1, h2, h3, h4] at hm
+        | some ps => simp only [h1, h2, h3, h4, Option.some.injEq] at hm; rw [← hm]; exact ⟨rfl, rfl, rfl⟩
 
 theorem astAnyA_name (n : Text.WNet) (r : Text.WDef) (M : WAnyA) (h : astAnyA n r = some M) : M.name = r.name := by
   unfold astAnyA at h
@@ -58,9 +64,9 @@ theorem done_padA (n : Text.WNet) (defs : List Def) (nm : String) (D L : Def) (o
     DoneL (defs.map (fun x => if x.name == nm then D else padOpsD x nm ops) ++ extra) Rl := by
   constructor
   · intro W hW
-    obtain ⟨D0, hD0, e1, e2, e3⟩ := hdw W hW
+    obtain ⟨D0, hD0, e1, e2, e3, e4⟩ := hdw W hW
     have hne : D0.name ≠ nm := by rw [e1]; exact hnw W hW
-    refine ⟨padOpsD D0 nm ops, List.mem_append_left _ (maptbl_other defs nm D ops D0 hD0 hne), e1, ?_, e3⟩
+    refine ⟨padOpsD D0 nm ops, List.mem_append_left _ (maptbl_other defs nm D ops D0 hD0 hne), e1, ?_, e3, e4⟩
     rw [viewD_padOps D0 nm L.ports.length ops (fun i hi e => hfull L hL D0 hD0 i hi (e.trans hLn.symm)) hops]
     exact e2
   · intro x hx
@@ -74,7 +80,7 @@ theorem hier_tbl_workA (n : Text.WNet) (t : String) (defs : List Def) (nx : Nat)
     (hstep : lateStepA defs nx t (.work m.toA) = some (tbl', n'))
     (hdw : DoneWA n defs Ws) (hdl : DoneL defs Rl) (hnw : ∀ W ∈ Ws, W.name ≠ r.name) (hnl : ∀ x ∈ Rl, x.name ≠ r.name) :
     LeafInv n tbl' ∧ (∀ D ∈ tbl', StubOK D) ∧ DoneWA n tbl' (r :: Ws) ∧ DoneL tbl' Rl := by
-  obtain ⟨hMn, _⟩ := astOfA_name n r m hm
+  obtain ⟨hMn, _, hMp⟩ := astOfA_name n r m hm
   have hfr : fragTop n r = true ∧ asgsOK n r 0 (asgI n r) = true := by
     simpa [fragTopA] using hfrag
   unfold lateStepA at hstep
@@ -91,7 +97,7 @@ theorem hier_tbl_workA (n : Text.WNet) (t : String) (defs : List Def) (nx : Nat)
       obtain ⟨D, ls', n1, ops⟩ := rr
       simp only [hb, Option.some.injEq, Prod.mk.injEq] at hstep
       obtain ⟨e1, _⟩ := hstep
-      obtain ⟨v1, v2, v3, v4, ⟨new, en, hnew⟩, v6, _, v8⟩ := buildLateWA_view n r m L _ nx t D ls' n1 ops hfr.1 hfr.2 hm
+      obtain ⟨v1, v2, v3, v4, ⟨new, en, hnew⟩, v6, _, v8, v9⟩ := buildLateWA_view n r m L _ nx t D ls' n1 ops hfr.1 hfr.2 hm
         (hstub L hLm) (leafInv_sub n defs _ hleaf) hb
       have hdrop : ls'.drop (defs.filter (fun x => x.name != m.toA.base.name)).length = new := by
         have : (defs.filter (fun x => x.name != m.toA.base.name)).length =
@@ -121,7 +127,8 @@ theorem hier_tbl_workA (n : Text.WNet) (t : String) (defs : List Def) (nx : Nat)
       · intro W hW
         rcases List.mem_cons.mp hW with e | e
         · rw [e]
-          exact ⟨D, List.mem_append_left _ (maptbl_self defs r.name D ops L hLm hLn), v3.trans hLn, v1, v2⟩
+          exact ⟨D, List.mem_append_left _ (maptbl_self defs r.name D ops L hLm hLn), v3.trans hLn, v1, v2,
+            by rw [v9]; unfold paramsOf; rw [hMp]; rfl⟩
         · exact p1 W e
 
 /-- a primitive declared late, on the table (pure) -/
@@ -299,10 +306,11 @@ theorem c04_view_hierA (n : Text.WNet) (T : Text.WDef) (Rs : List Text.WDef) (m 
     (hrefT : ∃ r0, Text.refOf n T.name = some r0 ∧ T.ports.map (·.name) = r0.ports.map (·.name))
     (hb : buildHierA m.toA Ms = some (defs, nx)) :
     (∃ ac, elabDesign (m.toA.toModule :: Ms.map WAnyA.toModule) = .ok ⟨defs, nx, some T.name, ac, []⟩) ∧
-    (∃ D ∈ defs, D.name = T.name ∧ viewD D = viewTA n T ∧ D.lib = some "work") ∧
-    (∀ r ∈ Rs, isPrim r = false → ∃ D ∈ defs, D.name = r.name ∧ viewD D = viewTA n r ∧ D.lib = some "work") ∧
+    (∃ D ∈ defs, D.name = T.name ∧ viewD D = viewTA n T ∧ D.lib = some "work" ∧ D.params = paramsOf T) ∧
+    (∀ r ∈ Rs, isPrim r = false →
+      ∃ D ∈ defs, D.name = r.name ∧ viewD D = viewTA n r ∧ D.lib = some "work" ∧ D.params = paramsOf r) ∧
     (∀ r ∈ Rs, isPrim r = true → ∃ L ∈ defs, L.name = r.name ∧ L.lib = some "hdi_primitives" ∧ ifaceD L = ifaceT r) := by
-  obtain ⟨hTn, hTa⟩ := astOfA_name n T m hm
+  obtain ⟨hTn, hTa, hTp⟩ := astOfA_name n T m hm
   have hfr : fragTop n T = true ∧ asgsOK n T 0 (asgI n T) = true := by simpa [fragTopA] using hfragA
   obtain ⟨hfrag, hok⟩ := hfr
   have hrun := elabDesign_hierA m.toA Ms defs nx hb
@@ -319,11 +327,14 @@ theorem c04_view_hierA (n : Text.WNet) (T : Text.WDef) (Rs : List Text.WDef) (m 
       cases hasg : (asgI n T).mapM (astAsg n T) with
       | none => simp [hports, hinsts, hasg] at hm
       | some as =>
-        simp only [hports, hinsts, hasg, Option.some.injEq] at hm
+       cases hpar : astParams T with
+       | none => simp [hports, hinsts, hasg, hpar] at hm
+       | some pars =>
+        simp only [hports, hinsts, hasg, hpar, Option.some.injEq] at hm
         subst hm
-        generalize hmA : (⟨⟨T.name, T.attrs.getD [], ports, T.cables.reverse.map astWire, insts⟩, as⟩ : WModPA).toA = mA at hb
+        generalize hmA : (⟨⟨T.name, T.attrs.getD [], ports, T.cables.reverse.map astWire, insts⟩, as, pars⟩ : WModPA).toA = mA at hb
         have hmA' : mA = (⟨⟨T.name, T.attrs.getD [], ports, T.cables.reverse.map astWire, insts.map PInst.toN⟩,
-            as.map (fun lr => (toX lr.1, toX lr.2))⟩ : WModA) := by rw [← hmA]; rfl
+            as.map (fun lr => (toX lr.1, toX lr.2)), pars⟩ : WModA) := by rw [← hmA]; rfl
         have hmAn : mA.base.name = T.name := by rw [hmA']
         unfold buildHierA at hb
         rw [hmAn] at hb
@@ -337,7 +348,7 @@ theorem c04_view_hierA (n : Text.WNet) (T : Text.WDef) (Rs : List Text.WDef) (m 
           unfold buildTopA at hbt
           generalize hws : T.cables.reverse.map astWire = wires at hbt
           simp only at hbt
-          generalize hd0 : (⟨T.name, some "work", false, [], none, [], [], []⟩ : Def) = d0 at hbt
+          generalize hd0 : topDef T.name pars = d0 at hbt
           cases h3 : buildW3 d0 0 ports wires with
           | none => simp [h3] at hbt
           | some r3 =>
@@ -368,8 +379,8 @@ theorem c04_view_hierA (n : Text.WNet) (T : Text.WDef) (Rs : List Text.WDef) (m 
                     simp only [fragTop, Bool.and_eq_true, decide_eq_true_eq, List.all_eq_true] at hfr
                     obtain ⟨⟨⟨⟨_, _⟩, F2n⟩, _⟩, _⟩ := hfr
                     have H3 := astPorts_nodup T ports hports F2n
-                    have hd0c : d0.cables = [] := by rw [← hd0]
-                    have hd0p : d0.ports = [] := by rw [← hd0]
+                    have hd0c : d0.cables = [] := by rw [← hd0]; try rfl
+                    have hd0p : d0.ports = [] := by rw [← hd0]; try rfl
                     have hcab0 : cabOf d0 = fun _ => none := by funext nm; unfold cabOf; rw [hd0c]; rfl
                     have hcabE := buildW3_cab d0 0 ports wires d3 n3 h3
                     rw [hcab0, ← hws] at hcabE
@@ -379,15 +390,15 @@ theorem c04_view_hierA (n : Text.WNet) (T : Text.WDef) (Rs : List Text.WDef) (m 
                     have hpv := buildW3_ports d0 0 ports wires d3 n3 hd0p H3 h3
                     obtain ⟨hi3, ha3⟩ := buildW3_frame d0 0 ports wires d3 n3 h3
                     obtain ⟨v1, v2, _, _⟩ := view_coreA n T ports insts as d3 d3a d4 [] lsa ls4 n3 aca hfrag hports hinsts hasg hok
-                      hpv hPC hWF hcabE (by rw [hi3, ← hd0]) (by rw [ha3, ← hd0]) (by intro L hL; cases hL) ha h4
+                      hpv hPC hWF hcabE (by rw [hi3, ← hd0]; try rfl) (by rw [ha3, ← hd0]; try rfl) (by intro L hL; cases hL) ha h4
                     obtain ⟨z4, z6⟩ := foldAsg_frame _ d3 0 [] d3a aca lsa ha
                     have hlib4 : (withAttrs (T.attrs.getD []) d4).lib = some "work" := by
-                      have h1 : d3.lib = some "work" := by rw [buildW3_lib d0 0 ports wires d3 n3 h3, ← hd0]
+                      have h1 : d3.lib = some "work" := by rw [buildW3_lib d0 0 ports wires d3 n3 h3, ← hd0]; try rfl
                       have h2 : d4.lib = d3a.lib := foldInst_lib _ d3a lsa d4 ls4 h4
                       unfold withAttrs; split <;> simp [h2, z6, h1]
                     have hname4 : (withAttrs (T.attrs.getD []) d4).name = T.name := by
                       have h1 : d3.name = T.name := by
-                        rw [buildW3_name d0 0 ports wires d3 n3 h3, ← hd0]
+                        rw [buildW3_name d0 0 ports wires d3 n3 h3, ← hd0]; try rfl
                       have h2 : d4.name = d3a.name := foldInst_name _ d3a lsa d4 ls4 h4
                       unfold withAttrs; split <;> simp [h2, z4, h1]
                     -- the state after the top
@@ -418,7 +429,11 @@ theorem c04_view_hierA (n : Text.WNet) (T : Text.WDef) (Rs : List Text.WDef) (m 
                       intro W hW
                       simp only [List.mem_singleton] at hW
                       rw [hW, hS1d]
-                      exact ⟨_, List.mem_cons_self, hname4, v1, hlib4⟩
+                      refine ⟨_, List.mem_cons_self, hname4, v1, hlib4, ?_⟩
+                      rw [withAttrs_params, foldInst_params _ d3a lsa d4 ls4 h4, foldAsg_params _ d3 0 [] d3a aca lsa ha,
+                        buildW3_params d0 0 ports wires d3 n3 h3, ← hd0]
+                      unfold paramsOf
+                      rw [hpar]; rfl
                     obtain ⟨s', _, f2, _, _, _, f7, f8⟩ := hier_foldA n T.name Rs Ms S1 tbl n5 [T] [] hRs hfa hnd.2
                       (by
                         intro r hr W hW
@@ -436,15 +451,15 @@ theorem c04_view_hierA (n : Text.WNet) (T : Text.WDef) (Rs : List Text.WDef) (m 
                       | none => rw [hDl] at hl; cases hl
                       | some v => simp
                     refine ⟨?_, ?_, ?_⟩
-                    · obtain ⟨D, hD, e1, e2, e3⟩ := f7 T (by simp)
+                    · obtain ⟨D, hD, e1, e2, e3, e4⟩ := f7 T (by simp)
                       obtain ⟨g1, g2⟩ := hmark D hD (by rw [e3]; rfl)
-                      exact ⟨D, by rw [← g2]; exact g1, e1, e2, e3⟩
+                      exact ⟨D, by rw [← g2]; exact g1, e1, e2, e3, e4⟩
                     · intro r hr hp
-                      obtain ⟨D, hD, e1, e2, e3⟩ := f7 r (by
+                      obtain ⟨D, hD, e1, e2, e3, e4⟩ := f7 r (by
                         apply List.mem_append_right
                         exact List.mem_filter.mpr ⟨hr, by simp [hp]⟩)
                       obtain ⟨g1, g2⟩ := hmark D hD (by rw [e3]; rfl)
-                      exact ⟨D, by rw [← g2]; exact g1, e1, e2, e3⟩
+                      exact ⟨D, by rw [← g2]; exact g1, e1, e2, e3, e4⟩
                     · intro r hr hp
                       obtain ⟨L, hL, e1, e2, e3⟩ := f8 r (by
                         apply List.mem_append_right
@@ -468,8 +483,9 @@ def fragHierA (n : Text.WNet) (T : Text.WDef) (Rs : List Text.WDef) : Bool :=
 theorem c04_ast_hierA (n : Text.WNet) (T : Text.WDef) (Rs : List Text.WDef) (h : fragHierA n T Rs = true) :
     ∃ m Ms s, astOfA n T = some m ∧ Rs.mapM (astAnyA n) = some Ms ∧
       elabDesign (m.toA.toModule :: Ms.map WAnyA.toModule) = .ok s ∧ s.top = some T.name ∧ s.pending = [] ∧
-      (∃ D ∈ s.defs, D.name = T.name ∧ viewD D = viewTA n T ∧ D.lib = some "work") ∧
-      (∀ r ∈ Rs, isPrim r = false → ∃ D ∈ s.defs, D.name = r.name ∧ viewD D = viewTA n r ∧ D.lib = some "work") ∧
+      (∃ D ∈ s.defs, D.name = T.name ∧ viewD D = viewTA n T ∧ D.lib = some "work" ∧ D.params = paramsOf T) ∧
+      (∀ r ∈ Rs, isPrim r = false →
+        ∃ D ∈ s.defs, D.name = r.name ∧ viewD D = viewTA n r ∧ D.lib = some "work" ∧ D.params = paramsOf r) ∧
       (∀ r ∈ Rs, isPrim r = true → ∃ L ∈ s.defs, L.name = r.name ∧ L.lib = some "hdi_primitives" ∧ ifaceD L = ifaceT r) := by
   unfold fragHierA at h
   simp only [Bool.and_eq_true, decide_eq_true_eq, List.all_eq_true] at h
@@ -491,12 +507,12 @@ theorem c04_ast_hierA (n : Text.WNet) (T : Text.WDef) (Rs : List Text.WDef) (h :
         exact ⟨m, Ms, _, rfl, rfl, a1, rfl, rfl, a2, a3, a4⟩
 /-- non-vacuity: the three-level netlist of `exNetH` with assignment instances — a two-bit and a one-bit one in `top`
     (listed AFTER the ordinary instances: the re-read definition has them first), a one-bit one in `sub` (its assignment
-    definition is already in the table when `sub` is read) -/
+    definition is already in the table when `sub` is read); `top` and `sub` have module parameters -/
 def exNetHA : Text.WNet :=
   let b (c : String) (i : Int) : Option Bit := some ⟨c, i⟩
   { name := "exha", top := some "top",
     defs := [
-      { name := "top", lib := "work", params := none, attrs := none,
+      { name := "top", lib := "work", params := some [("WIDTH", some "2")], attrs := none,
         ports := [⟨some "a", "IN", 0, 2, [b "a" 0, b "a" 1], none⟩, ⟨some "y", "OUT", 0, 1, [b "y" 0], none⟩],
         cables := [⟨"a", 0, 2, none, none⟩, ⟨"y", 0, 1, none, none⟩, ⟨"w", 0, 1, none, none⟩, ⟨"v", 0, 2, none, none⟩,
                    ⟨"z", 0, 1, none, none⟩],
@@ -504,7 +520,8 @@ def exNetHA : Text.WNet :=
                   ⟨"u1", "LUT1", none, none, [[b "w" 0], [b "y" 0]]⟩,
                   ⟨"SDN_VERILOG_ASSIGNMENT_2_0", "SDN_VERILOG_ASSIGNMENT_2", none, none, [[b "a" 0, b "a" 1], [b "v" 0, b "v" 1]]⟩,
                   ⟨"SDN_VERILOG_ASSIGNMENT_1_1", "SDN_VERILOG_ASSIGNMENT_1", none, none, [[b "w" 0], [b "z" 0]]⟩] },
-      { name := "sub", lib := "work", params := none, attrs := some [("keep", none)],
+      { name := "sub", lib := "work", params := some [("DEPTH", some "4'h3"), ("MODE", some "\"fast\"")],
+        attrs := some [("keep", none)],
         ports := [⟨some "p", "IN", 0, 2, [b "p" 0, b "p" 1], none⟩, ⟨some "q", "OUT", 0, 1, [b "q" 0], some [("mark", none)]⟩],
         cables := [⟨"p", 0, 2, none, none⟩, ⟨"q", 0, 1, none, none⟩, ⟨"r", 0, 1, none, none⟩],
         insts := [⟨"SDN_VERILOG_ASSIGNMENT_1_0", "SDN_VERILOG_ASSIGNMENT_1", none, none, [[b "r" 0], [b "q" 0]]⟩,
